@@ -429,3 +429,40 @@ def transport_release(ck):
     source_release(ck)
 
 RELEASE_RULE = RELEASE_RULE + " (8) the stream's source as a real transport: " + SOURCE_RULE
+
+
+# ---------------------------------------------------------------- administrative stop by the LISTED id
+# (appended block; same engine, specification and oracle as "transport-release": stop mode 2 = the harness reads the id
+#  the server lists for the client's consumer (Stream.Info(true), what the runtime API shows and service.onStopConsumer
+#  parses) and calls StopConsume with exactly that value)
+ADMIN_RULE = ("cycle histories of every transport (RTSP/TCP, RTSP/UDP, ws-rtsp, WSP, HTTP-FLV, ws-FLV: RTP and FLV consumers) in "
+              "which the clients are stopped by the administrator: StopConsume with exactly the id that Stream.Info(true) lists "
+              "for that consumer; the stopped consumer must be released as by any other stop (ok_release).")
+
+def admin_stop_cases(rng, thorough):
+    out = []
+    kinds = [T.TCP, T.UDP, T.WSRTSP, T.WSP, T.WSFLV, T.HTTPFLV, T.WSFLV, T.TCP]
+    if thorough:
+        kinds = kinds * 12
+    for k in kinds:
+        other = rng.choice([T.TCP, T.WSFLV, T.WSP])
+        c = T.gen_cycle_case(rng, False, [T.WSFLV if k == T.HTTPFLV else k, other], max_pkts=8, last_stops=rng.random() < 0.5)
+        if k == T.HTTPFLV:
+            c[2][0][0] = T.HTTPFLV
+        for e in c[3]:
+            if e[0] == 2 and (e[1] == 0 or rng.random() < 0.5):
+                e[2] = 2
+        out.append(c)
+    return out
+
+def admin_stop(ck):
+    ck.stream("admin-stop", admin_stop_cases(ck.rng, ck.thorough), None, "C03_transports", "C03_wire_ok", compare=False,
+              nontrivial=lambda c: any(e[0] == 2 and e[2] == 2 for e in c[3]),
+              sig=lambda c, e, o: "admin-stop", timeout=900)
+
+_transport_release_before_admin = transport_release
+def transport_release(ck):
+    _transport_release_before_admin(ck)
+    admin_stop(ck)
+
+RELEASE_RULE = RELEASE_RULE + " (9) administrative stop by the listed id: " + ADMIN_RULE
